@@ -1,6 +1,7 @@
 // Unit utf8: the lexer's UTF-8 decoder, extracted verbatim, against the
 // first-error semantics of core::str::from_utf8 (= String::from_utf8_lossy chunking).
 #![allow(dead_code, unused)]
+mod u {
 use std::marker::PhantomData;
 
 // ---- shim receiver: the subset of `Lexer`'s fields the extracted methods touch ----
@@ -118,4 +119,5 @@ mod vharness {
         assert!(lx.end_pos == 1, "canary:utf8:always-one-byte");
     }
 }
+} // mod u
 fn main() {}
